@@ -145,7 +145,9 @@ def c11_pipeline(rep, tier, seed, jit=False, scale=1.0, synthetic=True):
         if not small:
             raise Machinery("no scenario small enough for exhaustive arrival orders")
         budget, chosen = max_orders, []
-        for sc in sorted(small, key=lambda s: -orders_count([len(w) for w in streams[s["id"]]["streams"]])):
+        # many scenarios with few arrival orders first (the reducer's case analysis depends on the values, not on the
+        # length of the streams); the long ones take what is left of the budget
+        for sc in sorted(small, key=lambda s: (orders_count([len(w) for w in streams[s["id"]]["streams"]]), s["id"])):
             c = orders_count([len(w) for w in streams[sc["id"]]["streams"]])
             if c <= budget:
                 chosen.append(sc)
